@@ -14,7 +14,8 @@ RULE = ("scenario = start {document absent/present} x {pid unbound/bound to an o
         "format, retrieve_metadata (f1 / default; the reader opens, reads 7 bytes, yields, reads the rest), "
         "delete_metadata(f1), delete_metadata(all), delete_object} on ONE pid - every pair (two readers excluded); "
         "plus sampled triples. Run on the real code under the cooperative scheduler: all schedules with <= c "
-        "preemptions (c=1 quick / 2 thorough) + random walks; triples by PCT and random walks. Oracle: (outcomes incl. "
+        "preemptions (c=1 quick / 2 thorough) + random walks; triples by PCT and random walks; plus random / PCT schedules "
+        "with statement-level yield points (sys.monitoring LINE events) on 64 (quick) / all (thorough) pair scenarios. Oracle: (outcomes incl. "
         "the exact bytes a reader got, final directory abstraction) equals some sequential order run on the same "
         "code; for the READER a FileNotFoundError is accepted as a not-found error next to the sequential ValueError. "
         "distinct_nontrivial = distinct (scenario, interleaving) pairs.")
@@ -31,6 +32,10 @@ def shards(tier, seed):
     rng.shuffle(pairs)
     n = ncpu()
     out = []
+    line_scns = list(pairs)
+    random.Random(seed * 1000 + 121).shuffle(line_scns)
+    for c, s in zip(chunk(line_scns[:64] if tier == "quick" else line_scns, n), split_seeds(seed + 122, n)):
+        out.append(("statement-level", c, 6 if tier == "quick" else 50, s))
     if tier == "quick":
         for c, s in zip(chunk(pairs, n * 2), split_seeds(seed + 12, n * 2)):
             out.append((c, 1, 6, 0, s, None))
@@ -54,7 +59,12 @@ def reader_relaxation(runner, ob):
     return []
 
 
-def run_shard(scns, bound, n_random, pct, sub_seed, budget):
+def run_shard(*args):
+    if args[0] == "statement-level":
+        _k, scns, n_line, sub_seed = args
+        return P.run_scenarios(scns, 0, 0, 0, sub_seed, SYMPTOMS, n_line=n_line, skip_dfs=True,
+                               normalise=normalise_reader)
+    scns, bound, n_random, pct, sub_seed, budget = args
     res = P.run_scenarios(scns, bound, n_random, pct, sub_seed, SYMPTOMS, budget=budget,
                           normalise=normalise_reader)
     return res
